@@ -52,6 +52,16 @@ fn main() {
     }
     let ctx = Ctx { tier_thorough: tier == "thorough", seed, replay };
     if prop == "child" { props::child::main(&args[2..]); return; }
+    if prop == "dump" {
+        // debugging aid: vharness dump FILE.egg — run a program and print the raw and the canonical dump
+        let text = std::fs::read_to_string(&args[2]).expect("read program");
+        let mut eg = egglog::EGraph::default();
+        println!("outcome: {:?}", engine::run(&mut eg, &text).class());
+        let d = engine::raw_dump(&eg);
+        for t in &d.tables { println!("table {} ctor={} in={:?} out={}", t.name, t.is_ctor, t.in_sorts, t.out_sort); for r in &t.rows { println!("   {:?} -> {:?} sub={}", r.args, r.out, r.sub); } }
+        for l in engine::canon_dump(&d) { println!("{l}"); }
+        return;
+    }
     if prop == "bench" { props::child::bench(); props::child::bench2(); return; }
     let rep: Report = match props::run(&prop, &ctx) {
         Some(r) => r,
